@@ -126,6 +126,30 @@ def run(ctx: Ctx) -> None:
         one(ctx, rng, mds, c)
         one(ctx, rng, mds, c + c)
         one(ctx, rng, mds, "a" + c + "b")
+    # named references whose names differ only in case denote different characters (&Auml; / &auml;, &Dagger; / &dagger;, …): both
+    # spellings in one text, in one process, each must come out as its own character
+    import html.entities as _he
+    from markdown_it.common.utils import escapeHtml as _esc
+    groups = {}
+    for name, val in _he.html5.items():
+        if name.endswith(";") and name[:-1].isalnum():
+            groups.setdefault(name.lower(), []).append((name, val))
+    pairs = sorted(g for g in groups.values() if len({v for _, v in g}) > 1)
+    chosen = [g for g in pairs if g[0][0].lower() in ("auml;", "dagger;", "vert;", "gt;", "colon;")] + rng.sample(pairs, min(len(pairs), 25 if quick else 348))
+    for g in chosen:
+        src_t = "".join("&" + nm for nm, _ in g)
+        want_t = _esc("".join(v for _, v in g))
+        for mname, md in mds.items():
+            for tmpl, exp in (("%s\n", "<p>%s</p>\n"), ("# x%s\n", "<h1>x%s</h1>\n"), ("[%s](/u)\n", '<p><a href="/u">%s</a></p>\n')):
+                doc = tmpl % src_t
+                try:
+                    got = md.render(doc)
+                except Exception as e:
+                    got = "EXC " + type(e).__name__
+                ctx.count((src_t, mname, tmpl, "named-case"), nontrivial=True)
+                if got != exp % want_t:
+                    ctx.fail("literal:named-case", "named references that differ only in case are not decoded each to its own character",
+                             {"input": doc, "t": "".join(v for _, v in g), "context": "para", "encoding": "named", "preset": mname, "got": got, "want": exp % want_t})
     for _ in range(n):
         t = "".join(rng.choice(ALPH) for _ in range(rng.randint(1, 8)))
         one(ctx, rng, mds, t)
